@@ -161,7 +161,12 @@ structure Cfg where
   useSack : Bool := false    -- `ack_tracker().use_sack()` on both flows
   ignC : Bool := false       -- `ignore_client_data()`
   ignS : Bool := false       -- `ignore_server_data()`
+  cbSet : Bool := true       -- a new-stream callback is installed (`on_new_connection_`); `false`: see `stepX`
 deriving Repr
+
+/-- the stream as its constructor leaves it: what the new-stream callback would have configured is absent -/
+def Cfg.raw (cfg : Cfg) : Cfg :=
+  { cfg with acl := true, ackC := false, ackS := false, useSack := false, ignC := false, ignS := false }
 
 structure Stream where
   client : Flow
@@ -348,11 +353,40 @@ def run (cfg : Cfg) (keyOf : Pkt → κ) (lt : κ → κ → Bool) : Follower κ
     let rest := run cfg keyOf lt r.1 ps
     (rest.1, r.2 :: rest.2)
 
+/-! ### no new-stream callback installed (`throw callback_not_set()`)
+
+  `StreamFollower::process_packet` inserts the new stream, sets up the flow callbacks and then, finding `on_new_connection_`
+  empty, throws `callback_not_set`: the stream stays in `streams_` as constructed (no ESTABLISHED forcing, the packet is not
+  processed, no limits check, no sweep).  Later packets of the connection are processed as usual (`step`), but no stream
+  callback is installed, so only termination callbacks are observable.  `step` / `run` above describe the follower with
+  the callback installed; `stepX` / `runX` add this path (`stepX_of_cbSet`: they coincide when it is installed). -/
+
+/-- would this packet create a stream -/
+def creates (cfg : Cfg) (keyOf : Pkt → κ) (F : Follower κ) (p : Pkt) : Bool :=
+  (find? F.streams (keyOf p)).isNone && ((p.syn && !p.ackf) || (cfg.attach && p.payload.isSome))
+
+/-- `StreamFollower::process_packet(packet, ts)`, with or without a new-stream callback; the flag says whether
+    `callback_not_set` left the call -/
+def stepX (cfg : Cfg) (keyOf : Pkt → κ) (lt : κ → κ → Bool) (F : Follower κ) (p : Pkt) : Follower κ × List (Ev κ) × Bool :=
+  if !cfg.cbSet && creates cfg keyOf F p then
+    ({ F with streams := store F.streams (keyOf p) (Stream.ofPacket cfg.raw p) }, [], true)
+  else
+    let r := step cfg keyOf lt F p
+    (r.1, r.2, false)
+
+def runX (cfg : Cfg) (keyOf : Pkt → κ) (lt : κ → κ → Bool) : Follower κ → List Pkt → Follower κ × List (List (Ev κ) × Bool)
+  | F, [] => (F, [])
+  | F, p :: ps =>
+    let r := stepX cfg keyOf lt F p
+    let rest := runX cfg keyOf lt r.1 ps
+    (rest.1, (r.2.1, r.2.2) :: rest.2)
+
 end generic
 
 /-- the code: `streams_` keyed by `StreamIdentifier` -/
 abbrev Model := Follower Ident
 def Model.step (cfg : Cfg) (F : Model) (p : Pkt) : Model × List (Ev Ident) := Tins.SF.step cfg identOf Ident.lt F p
 def Model.run (cfg : Cfg) (F : Model) (h : List Pkt) : Model × List (List (Ev Ident)) := Tins.SF.run cfg identOf Ident.lt F h
+def Model.stepX (cfg : Cfg) (F : Model) (p : Pkt) : Model × List (Ev Ident) × Bool := Tins.SF.stepX cfg identOf Ident.lt F p
 
 end Tins.SF
